@@ -16,6 +16,8 @@ import (
 	"encoding/hex"
 	"encoding/json"
 	"fmt"
+	"github.com/formancehq/ledger/internal/storage/ledgerstore"
+	"github.com/formancehq/stack/libs/go-libs/bun/bunpaginate"
 	"math/big"
 	"sort"
 	"strings"
@@ -46,6 +48,7 @@ var engWatchdogs int
 type engStore struct {
 	mu       sync.Mutex
 	logs     []*ledger.ChainedLog // durable, in insertion order, across commander generations
+	rows     []ledgerstore.Logs   // what ledgerstore.Store.InsertLogs would have written for them, encoded at the time of the insertion
 	ameta    map[string]metadata.Metadata
 	gate     func(logs []*ledger.ChainedLog) error // scheduler gate; nil = pass
 	reads    int
@@ -166,9 +169,40 @@ func (st *engStore) InsertLogs(ctx context.Context, logs ...*ledger.ChainedLog) 
 		}
 	}
 	st.mu.Lock()
-	st.logs = append(st.logs, logs...)
+	for _, l := range logs {
+		st.persist(l)
+	}
 	st.mu.Unlock()
 	return nil
+}
+
+// persist appends the entry and the row ledgerstore.Store.InsertLogs would write for it, encoded NOW: what is serialised is the state
+// of the entry at the moment it reaches the store
+func (st *engStore) persist(l *ledger.ChainedLog) {
+	st.logs = append(st.logs, l)
+	data, err := json.Marshal(l.Data)
+	if err != nil {
+		data = []byte("null")
+	}
+	st.rows = append(st.rows, ledgerstore.Logs{Ledger: "l", ID: (*bunpaginate.BigInt)(big.NewInt(0).Set(l.ID)), Type: l.Type.String(),
+		Hash: append([]byte{}, l.Hash...), Date: l.Date, Data: data, IdempotencyKey: l.IdempotencyKey})
+}
+
+// storedOK reads row i back the way the store does (Logs.ToCore: HydrateLog of the stored JSON) and recomputes its hash over the
+// previous row read back the same way: true when the stored entry still verifies (C13 on entries written under concurrency)
+func (st *engStore) storedOK(i int) (ok bool) {
+	defer func() {
+		if recover() != nil {
+			ok = false
+		}
+	}()
+	var prev *ledger.ChainedLog
+	if i > 0 {
+		prev = st.rows[i-1].ToCore()
+	}
+	cur := st.rows[i].ToCore()
+	re := cur.Log.ChainLog(prev)
+	return hex.EncodeToString(re.Hash) == hex.EncodeToString(st.rows[i].Hash) && cur.ID.Cmp((*big.Int)(st.rows[i].ID)) == 0
 }
 
 func (st *engStore) GetLastLog(ctx context.Context) (*ledger.ChainedLog, error) {
@@ -583,7 +617,7 @@ func runEngineSchedule(reqs []engReq, funding [][]string, ameta [][]string, plan
 		tx := ledger.NewTransaction().WithPostings(ledger.NewPosting("world", f[0], f[1], amt)).WithID(big.NewInt(int64(i))).
 			WithDate(ledger.Time{Time: time.UnixMicro(1_600_000_000_000_000 + int64(i)).UTC()})
 		l := ledger.NewTransactionLogWithDate(tx, map[string]metadata.Metadata{}, tx.Timestamp).ChainLog(prev)
-		st.logs = append(st.logs, l)
+		st.persist(l)
 		prev = l
 	}
 	nFunding := len(st.logs)
@@ -953,6 +987,9 @@ func runEngineSchedule(reqs []engReq, funding [][]string, ameta [][]string, plan
 	for i, l := range st.logs {
 		o := logJ(pv, l)
 		o["funding"] = i < nFunding
+		if i < len(st.rows) {
+			o["stored_ok"] = st.storedOK(i)
+		}
 		durable = append(durable, o)
 		pv = l
 	}
